@@ -1352,6 +1352,10 @@ class Interp:
                     lemma = self.length_sum_lemma(st, cond, exp)
                     if lemma:
                         ok = True
+                if not ok and self.state_infeasible(st):
+                    # the path itself is contradictory (a symbol is entailed beyond its own bound through the recorded
+                    # facts): nothing can fail on it
+                    ok = True
                 self.note("assert:" + t["msg"], site, ok,
                           None if ok else self.explain(st, cond, exp, ops), st=st, lemma=lemma,
                           definite=(not ok) and holds(st, cond, not exp),
@@ -1388,6 +1392,24 @@ class Interp:
                     keep[vi] = p
             if keep and len(keep) < len(ev.variants):
                 self.write(st, place, EnumV(ev.path, keep, ev.ty))
+
+    def state_infeasible(self, st, limit=24):
+        """cheap contradiction test, used only where an obligation could not be shown: some symbol that occurs in a recorded
+        fact is entailed (by combining facts) to lie beyond the bound the state holds for it"""
+        if st.dead:
+            return True
+        seen = []
+        for f in st.facts:
+            for sy, _ in f.t:
+                if sy not in seen:
+                    seen.append(sy)
+        for sy in seen[-limit:]:
+            lo, hi = st.bounds.get(sy, (-INF, INF))
+            if hi < INF and st.entails(Aff.sym(sy) - (hi + 1)):
+                return True
+            if lo > -INF and st.entails(Aff.const(lo - 1) - Aff.sym(sy)):
+                return True
+        return False
 
     def is_len_sym(self, s):
         inf = self.syminfo.get(s)
